@@ -1,4 +1,4 @@
-/* C15 — any single allocation failure is survived without crash, leak or corruption.
+/* C15 - any single allocation failure is survived without crash, leak or corruption.
  * Fault enumeration: for every scenario of a corpus (one per request type / teardown path) the n-th allocation performed
  * by the daemon after the scenario's preamble returns NULL, for EVERY n up to the number of allocations the scenario
  * performs; with deviation budget 1 a second allocation fails a chosen number of allocations later (all pairs within a
